@@ -1905,6 +1905,20 @@ void Token::printValueFlow(const std::vector<std::string>& files, bool xml, std:
                 outs += " path=\"";
                 outs += MathLib::toString(value.path);
                 outs += "\"";
+#ifdef DANMAR_CPPCHECK_VERIF
+                // verification hook (add-only): expose the qualifiers needed to interpret a fact
+                outs += " indirect=\"";
+                outs += std::to_string(static_cast<int>(value.indirect));
+                outs += "\"";
+                if (value.conditional)
+                    outs += " conditional=\"1\"";
+                if (value.defaultArg)
+                    outs += " default-arg=\"1\"";
+                if (value.safe)
+                    outs += " safe=\"1\"";
+                if (value.macro)
+                    outs += " macro=\"1\"";
+#endif
 
                 outs += "/>\n";
             }
